@@ -22,7 +22,8 @@ impl Default for ExitStatus { fn default() -> (r: ExitStatus) ensures r == ExitS
 pub enum Divert { Exit(Option<ExitStatus>), Other(u8) }
 pub type Result<T = ()> = ControlFlow<Divert, T>;
 pub struct Field { pub value: String, pub verif_id: int }
-pub struct Word { pub verif_opaque: u8 }
+pub struct Word { pub verif_id: int }
+#[derive(Clone, Copy)]
 pub struct ExpansionMode { pub verif_opaque: u8 }
 pub struct Assign { pub verif_opaque: u8 }
 pub struct Redir { pub verif_opaque: u8 }
@@ -56,14 +57,38 @@ pub struct Mon {
     pub handled_errors: nat,
     /// the scope the assignment performer was last asked to use
     pub assign_scope: Option<Scope>,
+    /// the words expanded, in order, each with what came out (the status of its last command substitution, if any)
+    pub wlog: Seq<WordDone>,
+    /// the status the executor of a command without a name was last given
+    pub absent_status: Option<ExitStatus>,
 }
+pub struct WordDone { pub what: int, pub outcome: std::result::Result<Option<ExitStatus>, ExpError> }
+/// the exit status of the last command substitution among the first n words expanded from position `from` (None if none)
+pub open spec fn last_word_status(log: Seq<WordDone>, from: int, n: int) -> Option<ExitStatus>
+    decreases n
+{
+    if n <= 0 { None } else {
+        match log[from + n - 1].outcome {
+            Ok(Some(s)) => Some(s),
+            _ => last_word_status(log, from, n - 1),
+        }
+    }
+}
+pub proof fn lemma_word_status_prefix(a: Seq<WordDone>, b: Seq<WordDone>, from: int, n: int)
+    requires 0 <= from, 0 <= n, from + n <= a.len(), from + n <= b.len(), forall|k: int| 0 <= k < from + n ==> a[k] == b[k],
+    ensures last_word_status(a, from, n) == last_word_status(b, from, n),
+    decreases n
+{
+    if n > 0 { lemma_word_status_prefix(a, b, from, n - 1); }
+}
+/// crate::expansion::expand_word_with_mode: opaque; which word, and what came out, is recorded
+#[verifier::external_body]
+pub fn expand_word_with_mode<S>(env: &mut Env<S>, word: &Word, mode: ExpansionMode, fields: &mut Vec<Field>) -> (r: std::result::Result<Option<ExitStatus>, ExpError>)
+    ensures final(env).mon@ == (Mon { wlog: old(env).mon@.wlog.push(WordDone { what: word.verif_id, outcome: r }), ..old(env).mon@ })
+{ unimplemented!() }
 pub struct Env<S> { pub mon: Ghost<Mon>, pub system: S }
 pub trait Command<S> { fn execute(&self, env: &mut Env<S>) -> Result; }
 
-#[verifier::external_body]
-pub fn expand_words<S>(env: &mut Env<S>, words: &Vec<(Word, ExpansionMode)>) -> (r: std::result::Result<(Vec<Field>, Option<ExitStatus>), ExpError>)
-    ensures final(env).mon@ == old(env).mon@
-{ unimplemented!() }
 impl ExpError {
     #[verifier::external_body]
     pub fn handle<S>(&self, env: &mut Env<S>) -> (r: Result)
@@ -95,7 +120,7 @@ pub fn execute_external_utility<S>(env: &mut Env<S>, assigns: &Vec<Assign>, fiel
     ensures ran(*old(env), *final(env), Kind::ExternalK) { unimplemented!() }
 #[verifier::external_body]
 pub fn execute_absent_target<S>(env: &mut Env<S>, assigns: &Vec<Assign>, redirs: &Rc<Vec<Redir>>, exit_status: ExitStatus) -> (r: Result)
-    ensures ran(*old(env), *final(env), Kind::AbsentK) { unimplemented!() }
+    ensures final(env).mon@ == (Mon { executed: old(env).mon@.executed.push(Kind::AbsentK), absent_status: Some(exit_status), ..old(env).mon@ }) { unimplemented!() }
 impl<S> Env<S> {
     #[verifier::external_body]
     pub fn apply_errexit(&mut self) -> (r: Result)
